@@ -438,7 +438,7 @@ func (c *Conv) applyConv2D(x, kernel tensor.Tensor) (tensor.Tensor, error) {
 					continue
 				}
 
-				for w := 0; w < paddedX.Shape()[2]; w += c.strides[1] {
+				for w := 0; w < paddedX.Shape()[3]; w += c.strides[1] {
 					dimWOutputIdx := w / c.strides[1]
 					if dimWOutputIdx >= outputWDim {
 						continue
